@@ -91,6 +91,11 @@ class Snapshot:
 
 
 class ScriptSnapshot(Snapshot):
+    def start_snapshot(self):
+        super().start_snapshot()
+        # All of the captured settings are raw values.
+        self.append('units raw\n')
+
     def setting(self, reg, value):
         self.append('{} {:.0f} '.format(reg.name.lower(), value))
 
